@@ -13,6 +13,12 @@
 //	*-deep   the heap / slice / generic mixes on trees of depth 8..11
 //	intdiff  int heaps of all flavours against container/heap                  (intdiff.go)
 //	reinit   Heap.Init on a non-empty heap: the discarded elements' handles    (heap.go)
+//	popall-mutating  PopAll loops whose body changes the heap                  (popallmut.go)
+//	window   2..12 Heap mutators with no observing call at all, then one observer (window.go)
+//	chain-reinit  Init on non-empty heaps again and again inside the full op mix (window.go)
+//	kept-popall / nested-popall / panic-popall  the PopAll value kept, run later and
+//	         twice; nested and alternately pulled; loop body panics           (popallkept.go)
+//	big      all flavours at 4095..131073 elements, count-per-class model      (big.go)
 package main
 
 import (
@@ -202,7 +208,7 @@ func initialKeys(rng *ev.Rand, g *keygen, n int, ord order) []int {
 
 func main() {
 	r := ev.New("C04")
-	r.Rule("one case = a seeded operation sequence (Push/PushElement/Pop/Peek/Remove/Fix/Init/PopAll on Heap with live, stale and foreign handles; Push/Pop/Peek/Remove(i)/Fix(i)/PopAll/FromSlice on Slice with indices from -1 to len+1; generic Init/Push/Pop/Remove/Fix on a swap-logging container), or a sweep of Remove/Fix over every index and handle of one small heap; keys mostly 0..5 (ties), comparators asc, desc, K/2 and parity; distinct = distinct hash of the operation sequence with its arguments; non-trivial = at least 3 mutating operations on a heap that held at least 2 elements")
+	r.Rule("one case = a seeded operation sequence (Push/PushElement/Pop/Peek/Remove/Fix/Init/PopAll on Heap with live, stale and foreign handles; Push/Pop/Peek/Remove(i)/Fix(i)/PopAll/FromSlice on Slice with indices from -1 to len+1; generic Init/Push/Pop/Remove/Fix on a swap-logging container), or a sweep of Remove/Fix over every index and handle of one small heap, or windows of 2..12 Heap mutators with no observing call followed by one randomly chosen observer, or Init on non-empty heaps repeated inside the operation mix, or a kept / nested / alternately pulled / panicking-body PopAll scenario, or one 4095..131073-element heap of each flavour with a push burst and a complete drain; keys mostly 0..5 (ties), comparators asc, desc, K/2 and parity; distinct = distinct hash of the operation sequence with its arguments; non-trivial = at least 3 mutating operations on a heap that held at least 2 elements")
 	r.Assume("the multiset model (slice of (id,key) + handle table) is the specification; comparators are strict weak orders of the form f(a.K) < f(b.K); an element's identity is the unique ID stored in its Value; positions inside Heap are never read (only Index(), Len, Peek, Pop, PopAll), Slice.Values and the harness container's own storage are read directly")
 	opt := ev.Opt{HangViolation: true, MaxCaseSeconds: 120}
 	r.Cases("heap", r.N(120000, 3000000), opt, heapCase)
@@ -217,6 +223,13 @@ func main() {
 	r.Cases("reinit", r.N(5000, 100000), opt, reinitCase)
 	r.Cases("popall-mutating", r.N(30000, 1000000), opt, popAllMutCase)
 	r.Require("popall_mutating_loops", 10000)
+	// strengthening round 5 (LESSONS.md classes 1, 2, 4/6, 7, 9, 10)
+	r.Cases("window", r.N(30000, 800000), opt, windowCase)
+	r.Cases("chain-reinit", r.N(6000, 150000), opt, chainCase)
+	r.Cases("kept-popall", r.N(20000, 500000), opt, keptPopAllCase)
+	r.Cases("nested-popall", r.N(20000, 500000), opt, nestedPopAllCase)
+	r.Cases("panic-popall", r.N(20000, 500000), opt, panicPopAllCase)
+	r.Cases("big", r.N(24, 480), opt, bigCase)
 
 	// anti-vacuity floors (quick tier observes 20-1000x these numbers)
 	for k, v := range map[string]int64{
@@ -276,6 +289,46 @@ func main() {
 		"sweep/generic_fix_index":      20000,
 		"intdiff/pops_compared":        50000,
 		"reinit/old_handles_inspected": 2000,
+		// unobserved-operation windows (Heap)
+		"window/windows":                         50000,
+		"window/quiet_ops":                       200000,
+		"window/handle_op_after_unobserved_move": 50000,
+		"window/first_len":                       5000,
+		"window/first_index":                     5000,
+		"window/first_peek":                      5000,
+		"window/first_pop":                       5000,
+		"window/first_popall":                    5000,
+		"window/first_full_check":                5000,
+		// Init on non-empty heaps, repeatedly, with everything else going on
+		"chain/reinit_nonempty":               20000,
+		"chain/reinit_known_handles_detached": 50000,
+		"chain/reinit_shrinking":              3000,
+		"chain/reinit_growing":                3000,
+		"chain/push_right_after_reinit":       20000,
+		"chain/push_element_repushed":         5000,
+		"chain/remove_stale":                  5000,
+		"chain/fix_stale":                     5000,
+		// kept / nested / panicking PopAll
+		"kept/run_later":                     10000,
+		"kept/run_later_grown":               3000,
+		"kept/run_later_shrunk":              500,
+		"kept/run_twice":                     10000,
+		"kept/second_sequence_runs":          10000,
+		"nested/inner_runs":                  5000,
+		"nested/inner_stopped_outer_resumed": 1000,
+		"nested/alternations":                10000,
+		"nested/abandoned_then_fresh":        3000,
+		"panicpop/body_panics":               15000,
+		"panicpop/values_inside_after_panic": 50000,
+		// sizes around 2^12, 2^13, 2^16, 2^17
+		"big/cases_Heap":        8,
+		"big/cases_Slice":       8,
+		"big/cases_generic":     8,
+		"big/cases_above_65536": 6,
+		"big/elements_drained":  500000,
+		"big/handle_audits":     16,
+		"big/h_burst_pushes":    100000,
+		"big/s_burst_pushes":    100000,
 	} {
 		r.Require(k, v)
 	}
